@@ -6,11 +6,12 @@ package routing
 // zero-flow spells. A sweep is not a proof; the result is reported as bounded, never as proved.
 //
 // owvc-bounded: property=C11 pkg=models/routing
-//   storage-routing-balance-all-parameters 300 parameter sets (bias 0..0.4 with 2*k*bias <= dt, power 0.5..1, k 0.05..0.5 dt/bias-limit, dead storage 0..1e4) x 2 series of 200 steps, no rain or evaporation: storage change = (inflow + lateral - outflow) * dt at every step, outflow and storage never negative
+//   storage-routing-balance-all-parameters 300 parameter sets (12000 in the thorough tier; bias 0..0.4 with 2*k*bias <= dt, power 0.5..1, k 0.05..0.5 dt/bias-limit, dead storage 0..1e4) x 2 series of 200 steps, no rain or evaporation: storage change = (inflow + lateral - outflow) * dt at every step, outflow and storage never negative
 
 import (
 	"fmt"
 	"math"
+	"os"
 	"testing"
 
 	"github.com/flowmatters/openwater-core/data"
@@ -29,7 +30,11 @@ func TestOwvcReplay(t *testing.T) {
 	rng := &owvcRng{s: 1101}
 	bad := ""
 	runs := 0
-	for set := 0; set < 300 && bad == ""; set++ {
+	sets := 300
+	if os.Getenv("OWVC_THOROUGH") != "" { // thorough tier: forty times as many parameter sets
+		sets = 12000
+	}
+	for set := 0; set < sets && bad == ""; set++ {
 		dt := []float64{86400, 3600, 21600}[set%3]
 		bias := 0.0
 		if set%3 != 0 {
